@@ -308,7 +308,8 @@ DecodeGen ==       \* Class.deserialize(bytes), read back through the Python att
 AddValue(nm, num) ==
   /\ subject = "enum" /\ phase = "build" /\ Len(evals) < MaxEnumValues
   /\ (evals = <<>>) => num = 0               \* proto3: the first value is zero
-  /\ \A i \in 1..Len(evals) : evals[i].name # nm /\ evals[i].number # num
+  /\ \A i \in 1..Len(evals) : evals[i].name # nm     \* names are unique; a NUMBER may repeat: the enum is then declared with
+                                                      \* option allow_alias = true and every name stays a member (an alias)
   /\ evals' = Append(evals, [name |-> nm, number |-> num])
   /\ UNCHANGED <<subject, ctx, sh, fields, pend, pstage, phase, genum, tops, manifest>> /\ UNCH_vals
 GenerateEnum ==
